@@ -90,10 +90,20 @@ func InstallMetrics() { monitoring.SetMetricFactory(Metrics) }
 type LogCfg struct {
 	Origin string
 	Key    uni.Key
+	// CustomID registers the log under a hand-picked ID instead of the hash of
+	// its origin (witness.Opts.KnownLogs takes any ID; the repository's own
+	// tests use IDs like "monkeys"). The witness's log map is then built
+	// directly, not through omniwitness.LogConfig.AsLogMap.
+	CustomID string
 }
 
 // ID returns the log ID.
-func (l LogCfg) ID() string { return uni.ID(l.Origin) }
+func (l LogCfg) ID() string {
+	if l.CustomID != "" {
+		return l.CustomID
+	}
+	return uni.ID(l.Origin)
+}
 
 // Config describes a witness instance.
 type Config struct {
@@ -223,7 +233,11 @@ func NewEnv(u *uni.U, cfg Config) *Env {
 	// own key parsing and ID derivation) whenever that is possible (no ID
 	// override, no duplicate origins); it must describe exactly the logs that
 	// were configured - ConfigDiff says how it does not.
-	if len(cfg.IDOverride) == 0 {
+	custom := false
+	for _, l := range cfg.Logs {
+		custom = custom || l.CustomID != ""
+	}
+	if len(cfg.IDOverride) == 0 && !custom {
 		var lc omniwitness.LogConfig
 		for _, l := range cfg.Logs {
 			lc.Logs = append(lc.Logs, omniwitness.LogInfo{Origin: l.Origin, PublicKey: l.Key.VKey, URL: "http://unused.example/"})
